@@ -16,6 +16,7 @@ import (
 	"verif/harness/rec"
 	"verif/harness/refcodec"
 	"verif/harness/zoo"
+	"verif/harness/zoo/twin"
 )
 
 // c02Canon: what C02 compares. Forms are not prescribed here (C07/C08 do that):
@@ -63,6 +64,29 @@ func wireCheck(v interface{}, nm map[string]string) (bytes []byte, got *av.V, de
 		return again, got2, dec, fmt.Errorf("second one-shot message of a reused Serializer denotes a different value\n want: %s\n  got: %s", clipDiff(w, g2), clipDiff(g2, w))
 	}
 	return bytes, got, dec, nil
+}
+
+type sharedNameCase struct {
+	name string
+	v    interface{}
+	nm   map[string]string
+}
+
+func c02SharedNames() []sharedNameCase {
+	a1 := &zoo.AcctV1{ID: 7, Name: "ann", Note: "first"}
+	a2 := &zoo.AcctV2{Name: "bob", ID: 1 << 40, Tags: []string{"x", "y"}}
+	i1 := &zoo.IntFields{I8: -3, I16: 300, I32: 70000, I: 5, I64: 1 << 41, U8: 200, U16: 60000, U32: 1 << 31, U: 9, U64: 1 << 50}
+	i2 := &zoo.IntFieldsWide{I8: 1 << 40, I16: -(1 << 35), I32: 1<<31 + 5, I: -(1 << 62), I64: 3, U8: 1 << 33, U16: 70000, U32: 1 << 45, U: 1 << 62, U64: 12}
+	zi, ti := &zoo.Inner{A: 4, S: "zoo"}, &twin.Inner{X: 2.5, Tags: []string{"t"}, Sub: &twin.Leaf{N: 1 << 40, S: "leaf"}}
+	return []sharedNameCase{
+		{"AcctV1-then-AcctV2", []interface{}{a1, a2, a1, a2, &zoo.AcctV1{ID: 8}, &zoo.AcctV2{ID: 9}}, zoo.OneClassName()},
+		{"AcctV2-then-AcctV1", []interface{}{a2, a1, &zoo.AcctV2{Name: "c"}}, zoo.OneClassName()},
+		{"by-value", []interface{}{*a1, *a2, *a1}, zoo.OneClassName()},
+		{"IntFields-then-IntFieldsWide", []interface{}{i1, i2, i1, &zoo.IntFieldsWide{I8: 1}}, zoo.OneClassName()},
+		{"IntFieldsWide-then-IntFields", []interface{}{i2, i1}, zoo.OneClassName()},
+		{"same-Go-name-two-packages-no-name-map", []interface{}{zi, ti, zi, &twin.Inner{X: 1}, &zoo.Inner{A: 5}}, nil},
+		{"same-Go-name-two-packages-no-name-map-twin-first", map[string]interface{}{"k": []interface{}{ti, zi}}, nil},
+	}
 }
 
 var c02Inner = []interface{}{
@@ -204,6 +228,18 @@ func TestC02(t *testing.T) {
 			rec.WriteFailure(rec.Failure{Prop: "C02", Test: t.Name(), Kind: "direct", Message: fmt.Sprintf("regression case %s: %v", rc.name, err), Case: map[string]interface{}{"regression": rc.name, "bytes": hexClip(b, 200)}})
 			t.Fatalf("regression case %s: %v", rc.name, err)
 		}
+	}
+	// two Go types that go by one class name, in one message (each needs a definition of its own, whichever
+	// comes first, and the instances must name their own): under a name map with two entries for one class, and
+	// under no name map with equally named types of two packages
+	for _, sc := range c02SharedNames() {
+		r.Eval()
+		if b, _, _, err := wireCheck(sc.v, sc.nm); err != nil {
+			rec.WriteFailure(rec.Failure{Prop: "C02", Test: t.Name(), Kind: "direct", Message: fmt.Sprintf("two types, one class name (%s): %v", sc.name, err), Case: map[string]interface{}{"regression": sc.name, "bytes": hexClip(b, 400)}})
+			t.Fatalf("two types under one class name, case %s: %v", sc.name, err)
+		}
+		r.NonTrivial(av.Hash("shared-name/" + sc.name))
+		r.Label("two Go types under one class name in one message")
 	}
 	cfg := c02Cfg()
 	check(t, "C02", func(rt *rapid.T, c *caseInfo) {
